@@ -89,7 +89,7 @@ package node_affinities
 //@   requires scenario != nil ==> session != nil && session.ClusterInfo != nil && session.Cache != nil
 //@   requires scenario != nil ==> (forall k in feasibleNodeInfos :: feasibleNodeInfos[k] != nil) && (forall k in session.ClusterInfo.Nodes :: session.ClusterInfo.Nodes[k] != nil)
 //@   note the preconditions for a non-nil scenario are the type invariant of ByNodeScenario (NewByNodeScenario always sets the embedded *BaseScenario; pending / potential victim tasks are pod-map values), the session skeleton and "node maps hold no nil NodeInfo"; nothing is required of a nil scenario
-//@   modifies *
+//@   # frame: nothing that existed before the call is written (default `modifies` nothing; the filter and its maps are own allocations)
 //@   ensures [nilScenarioNoFilter] scenario == nil ==> result == nil
 //@   ensures [noAffinityNoFilter] scenario != nil && (forall i int :: 0 <= i && i < len(scenario.BaseScenario.pendingTasks) ==> !reqAff(scenario.BaseScenario.pendingTasks[i])) ==> result == nil
 //@   ensures [filterHasMaps] result != nil ==> result.processedVictims != nil && result.feasibleNodes != nil
